@@ -32,8 +32,9 @@ def api_builds(ctx, nconf):
     done = 0
     try:
         for c in range(nconf):
-            n = rng.choice([30, 60, 120, 200])
-            dim = rng.choice([2, 5, 10])
+            # the last configuration of every run is larger than one 16384-vertex update block (the block loop of the low-memory path)
+            n = rng.choice([30, 60, 120, 200]) if c < nconf - 1 else 16384 + rng.choice([1, 700, 3000])
+            dim = rng.choice([2, 5, 10]) if n < 1000 else 4
             kind = rng.choice(["gauss", "ints", "dups"])
             rs = np.random.RandomState(rng.randrange(10 ** 6))
             if kind == "gauss":
@@ -42,17 +43,19 @@ def api_builds(ctx, nconf):
                 X = rs.randint(0, 4, size=(n, dim)).astype(np.float32)
             else:
                 X = rs.randint(0, 3, size=(max(2, n // 4), dim)).astype(np.float32)[rs.randint(0, max(2, n // 4), size=n)]
-            sparse = rng.random() < 0.35
+            sparse = rng.random() < 0.35 and n < 1000
             metric = rng.choice(["euclidean", "manhattan", "cosine"] if not sparse else ["euclidean", "manhattan", "cosine"])
             if metric == "cosine":
                 X = np.abs(X) + np.float32(0.25)
             kw = dict(metric=metric, n_neighbors=rng.choice([3, 5, 10, 15]), random_state=rng.randrange(1000),
                       tree_init=rng.choice([True, False]), n_jobs=rng.choice([None, 1, 2, 4]),
                       max_candidates=rng.choice([None, 3, 10]), n_iters=rng.choice([None, 1, 3]),
-                      delta=rng.choice([0.001, 0.05]))
+                      delta=rng.choice([0.001, 0.05, 0.2]))
             if kw["n_neighbors"] >= n:
                 kw["n_neighbors"] = max(1, n // 3)
-            use_init = (not sparse) and rng.random() < 0.25
+            if n > 1000:
+                kw.update(n_neighbors=5, max_candidates=None, n_iters=rng.choice([None, 3]), tree_init=rng.choice([True, False]))
+            use_init = (not sparse) and n < 1000 and rng.random() < 0.25
             if use_init:
                 ig = rs.randint(-1, n, size=(n, kw["n_neighbors"])).astype(np.int64)
                 kw["init_graph"] = ig
